@@ -48,6 +48,7 @@ let parse_port (d:string) : cell =
         | "P" -> KP | "F" -> KF | "I" -> KI | "O" -> KO | "T" -> KT
         | "AI" | "PA" -> KAI | "AF" -> KAF | "AO" -> KAO | "AT" -> KAT
         | "PS" -> KPS (z_of_int n)
+        | "CO" -> KCO
         | _ -> failwith "kind") in
     let arrayk = (match k with KAI | KAF | KAO | KAT -> true | _ -> false) in
     let conv t = if t = "-" then None else Some (z_of_string t) in
@@ -56,7 +57,7 @@ let parse_port (d:string) : cell =
             | Some p -> (z_of_string (String.sub kv 0 p), bytes_of_string (String.sub kv (p+1) (String.length kv - p - 1)))
             | None -> failwith "opt") (String.split_on_char '/' opts) in
     let e = { p_name = bytes_of_string name; p_hash = arrayk; p_min = conv mn; p_max = conv mx; p_map = mp } in
-    ({ pk = k; pe = e; pn = z_of_int n }, List.init (if arrayk || kind = "PS" then n else 1) (fun _ -> Z0))
+    ({ pk = k; pe = e; pn = z_of_int n }, List.init (if arrayk || kind = "PS" then n else if kind = "CO" then 2 else 1) (fun _ -> Z0))
   | _ -> failwith "port"
 let parse_arg (v:string) : arg =
   let rest = String.sub v 1 (String.length v - 1) in
